@@ -1519,6 +1519,7 @@ def normalize(fn: ast.FunctionDef, cls: ast.ClassDef | None, qual: str, inliner:
                 if not used:
                     new.body.remove(st)
     if inliner is not None and inliner.inlined:
+        new = _StripCasts().visit(new)
         body = [_Canon().visit(st) for st in new.body]  # inlined helper bodies get the same canonical spellings
         new.body = [st for st in body if not isinstance(st, ast.Pass)] or [ast.copy_location(ast.Pass(), new)]
     new = lower(new, tuples=True, ifexp=False)
